@@ -327,7 +327,14 @@ func (g *gen) field(label string, ft reflect.Type, fi *Field, depth int, force b
 				v %= MaxMillis + 1
 			}
 		}
-		return Node{U: v}
+		n := Node{U: v}
+		// a duration need not be a whole number of milliseconds: the encoding keeps the
+		// milliseconds only, but it must still produce exactly the bytes it announced (seeded
+		// defect C13-r4-1: the encoder rounded up where the length calculation truncated)
+		if v < MaxMillis && pick(g.t, []int{0, 0, 0, 1}, label+"frac?") == 1 {
+			n.N = pick(g.t, []int{1, 1000, 300000, 999999}, label+"frac")
+		}
+		return n
 	}
 	switch ft.Kind() {
 	case reflect.Bool:
@@ -496,7 +503,7 @@ func fill(dst reflect.Value, n Node) error {
 		dst.Set(reflect.ValueOf(w))
 		return nil
 	case t == typeDuration:
-		dst.SetInt(int64(time.Duration(n.U) * time.Millisecond))
+		dst.SetInt(int64(time.Duration(n.U)*time.Millisecond) + int64(n.N))
 		return nil
 	}
 	switch t.Kind() {
